@@ -1,6 +1,6 @@
 (* C13 — reading a package never expands entities or touches external resources. (partial: see below) *)
-From Odf Require Import model.Base model.XmlLex model.XmlTree model.NsTable model.Package model.ParseSites gen.GenSites
-  proofs.ParseSitesProofs.
+From Odf Require Import model.Base model.XmlLex model.XmlTree model.NsTable model.Package model.ParseSites model.FixPart gen.GenSites
+  proofs.ParseSitesProofs proofs.FixPartProofs.
 
 (* every place in the odf package where an XML parser is constructed or an XML parse function is called uses
    defusedxml (table regenerated from the working tree by an ast walk with import resolution) *)
@@ -37,3 +37,14 @@ Theorem C13_members_object : forall m p mtv n, In (p, mtv) m -> classify m p = I
   in_manifest m (p ++ n) = true -> In (p ++ n) (load_reads m).
 Proof. exact load_reads_object. Qed.
 Print Assumptions C13_members_object.
+
+(* what reaches the parser: load() patches every member textually before parsing it (fix_part = __fixXmlPart: namespace
+   declarations some producers leave out are inserted at the first " xmlns:").  For EVERY string: the member is unchanged up
+   to the end of its document type declaration (root_start: quotes and the internal subset respected), so every entity
+   declaration and every external identifier reaches the guarded parser as it stands in the package *)
+Theorem C13_dtd_untouched : forall s, firstn (root_start s) (fix_part s) = firstn (root_start s) s.
+Proof. exact dtd_untouched. Qed.
+Print Assumptions C13_dtd_untouched.
+Theorem C13_patched_shape : forall s, exists tail, fix_part s = firstn (root_start s) s ++ tail.
+Proof. exact fix_part_shape. Qed.
+Print Assumptions C13_patched_shape.
